@@ -16,6 +16,13 @@ CLAIMED = {
                      "the structural necessary condition of failure-atomicity (all exits x all functions), not database contents.",
                 note=TB + "; SQLite transaction semantics (rollback restores the begin/savepoint state; single statements are atomic)",
                 tech="typestate dataflow (status-sensitive, disjunctive) over clang CFGs + call-graph summaries"),
+    "C06": dict(level="other", ref="5 C06",
+                text="Structural life-cycle of packet iterators on the CFGs of cif_loop_get_packets, cif_pktitr_* and every internal "
+                     "iterator user: transaction contract per exit, stale/misuse guards dominate every modifying statement, "
+                     "bookkeeping stores precede success exits, savepoints paired, users close what they open. Necessary conditions "
+                     "of the property; once-only delivery of packets depends on SQL row grouping at run time and is not decided.",
+                note=TB + "; SQLite transaction/savepoint semantics",
+                tech="typestate dataflow + dominance / must-pass-through queries on clang CFGs"),
     "C20": dict(level="proof", ref="5 C20",
                 text="Exhaustive comparison of the finite set of result-code macros of cif.h with the positional cif_errlist "
                      "initialiser and cif_nerr, read from the AST; complete for this property.",
